@@ -349,8 +349,6 @@ func elemLabel(e ast.Element) string {
 	}
 	s := elemKind(e)
 	switch x := e.(type) {
-	case *ast.BinaryExpression:
-		s += "(" + opClass(x.Operation) + ")"
 	case *ast.UnaryExpression:
 		s += "(" + x.Operation.Symbol() + ")"
 	case *ast.CastingExpression:
